@@ -1308,3 +1308,30 @@ package regexp2
 //@     invariant 0 <= startAt && startAt <= searchAt && searchAt <= len(input) && MinBytes(input, startAt, *minRequiredLength)
 //@     invariant forall k int {EncAt(input, k, *ch)} :: startAt <= k && k < searchAt && EncAt(input, k, *ch) ==> !BackClear(input, k, *distance, startAt)
 //@     decreases len(input) - searchAt
+
+// ---- raw-string fixed-distance set filter ----
+//@ spec func ScanHas(s asciiSetStringScanner, b byte) bool = ite(s.useRange, s.first <= b && b <= s.last, ByteIn(s.chars, b))
+//@ func (s asciiSetStringScanner) index(input string) (r int)
+//@   props C02 C03 C10
+//@   requires !s.useRange ==> len(s.chars) > 0 && AsciiStr(s.chars)
+//@   ensures[range] -1 <= r && r < len(input) && (r >= 0 ==> ScanHas(s, input[r]))
+//@   ensures[first] forall k int {input[k]} :: 0 <= k && k < len(input) && (r < 0 || k < r) ==> !ScanHas(s, input[k])
+//@   loop 0:
+//@     invariant 0 <= i && i <= len(input) && s.useRange
+//@     invariant forall k int {input[k]} :: 0 <= k && k < i ==> !ScanHas(s, input[k])
+//@     decreases len(input) - i
+
+//@ func stringFixedDistanceSetFilter$1(input string, startAt int) (candidateByteIndex int, ok bool)
+//@   props C02 C03 C10
+//@   free minRequiredLength *int, scanner *asciiSetStringScanner
+//@   requires scanner != nil && 0 <= scanner.distance && (!scanner.useRange ==> len(scanner.chars) > 0 && AsciiStr(scanner.chars))
+//@   ensures[hit]   ok ==> exists i int {Back(input, i, scanner.distance)} :: startAt <= i && i < len(input) && ScanHas(*scanner, input[i]) && BackClear(input, i, scanner.distance, startAt) && candidateByteIndex == Back(input, i, scanner.distance) &&
+//@                     MinBytes(input, candidateByteIndex, *minRequiredLength) && forall k int {input[k]} :: startAt <= k && k < i && ScanHas(*scanner, input[k]) ==> !BackClear(input, k, scanner.distance, startAt)
+//@   ensures[miss]  !ok && MinBytes(input, startAt, *minRequiredLength) ==>
+//@                     (forall k int {input[k]} :: startAt <= k && k < len(input) && ScanHas(*scanner, input[k]) ==> !BackClear(input, k, scanner.distance, startAt)) ||
+//@                     (exists i int {Back(input, i, scanner.distance)} :: startAt <= i && i < len(input) && ScanHas(*scanner, input[i]) && BackClear(input, i, scanner.distance, startAt) && !MinBytes(input, Back(input, i, scanner.distance), *minRequiredLength) &&
+//@                         forall k int {input[k]} :: startAt <= k && k < i && ScanHas(*scanner, input[k]) ==> !BackClear(input, k, scanner.distance, startAt))
+//@   loop 0:
+//@     invariant 0 <= startAt && startAt <= searchAt && MinBytes(input, startAt, *minRequiredLength)
+//@     invariant forall k int {input[k]} :: startAt <= k && k < searchAt && k < len(input) && ScanHas(*scanner, input[k]) ==> !BackClear(input, k, scanner.distance, startAt)
+//@     decreases len(input) - searchAt
